@@ -456,11 +456,41 @@ def imports_shard(args):
             ("local g = import 'f.libsonnet'; [g(1), g(2), (import 'f.libsonnet')(3)]", [2, 3, 4], {"EVAL-f": 1}),
             ("{a: (import 'lib.libsonnet').v, b: self.a + (import 'lib.libsonnet').w} + {c: (import 'lib.libsonnet').v}", {"a": 1, "b": 3, "c": 1}, {"EVAL-lib": 1}),
         ]
-        for src, want, traces in cases:
+        # top-level arguments and external variables are delayed expressions as well: code given with --tla-code / --ext-code
+        # (text or file) is evaluated only as far as the result needs it, and once
+        with open(os.path.join(d, "dead_code.jsonnet"), "w") as f:
+            f.write("error 'dead-code-file'")
+        with open(os.path.join(d, "part_code.jsonnet"), "w") as f:
+            f.write("{a: 1, c: [error 'dead-part'], t: std.trace('EVAL-f', 2)}")
+        arg_cases = [
+            (["--tla-code", "cfg={a: 1, c: [error 'dead']}"], "function(cfg) cfg.a", 1, {}),
+            (["--tla-code", "x=error 'dead'"], "function(x) 1", 1, {}),
+            (["--tla-code", "x=error 'dead'", "--tla-code", "y=2"], "function(x, y) y", 2, {}),
+            (["--tla-code", "x=std.trace('EVAL-lib', 1)"], "function(x) 2", 2, {}),
+            (["--tla-code", "x=std.trace('EVAL-lib', 5)"], "function(x) x + x", 10, {"EVAL-lib": 1}),
+            (["--tla-code", "x={a: std.trace('EVAL-lib', 5), b: error 'dead'}"], "function(x) [x.a, x.a]", [5, 5], {"EVAL-lib": 1}),
+            (["--tla-code-file", "x=" + os.path.join(d, "dead_code.jsonnet")], "function(x) 3", 3, {}),
+            (["--tla-code-file", "x=" + os.path.join(d, "part_code.jsonnet")], "function(x) x.a", 1, {}),
+            (["--tla-code-file", "x=" + os.path.join(d, "part_code.jsonnet")], "function(x) x.t + x.t", 4, {"EVAL-f": 1}),
+            (["--ext-code", "e=error 'dead'"], "1", 1, {}),
+            (["--ext-code", "e=error 'dead'"], "local u = std.extVar('e'); 4", 4, {}),
+            (["--ext-code", "e={a: 1, b: error 'dead'}"], "std.extVar('e').a", 1, {}),
+            (["--ext-code", "e=std.trace('EVAL-lib', 3)"], "std.extVar('e') + std.extVar('e')", 6, {"EVAL-lib": 1}),
+            (["--ext-code-file", "e=" + os.path.join(d, "dead_code.jsonnet")], "5", 5, {}),
+            (["--ext-code-file", "e=" + os.path.join(d, "part_code.jsonnet")], "std.extVar('e').a", 1, {}),
+            (["--ext-code", "e=import 'boom.libsonnet'"], "[std.extVar('e'), 6][1]", 6, {}),
+            (["--tla-code", "x=import 'lib.libsonnet'", "-J", d], "function(x, y=error 'dead default') x.v", 1, {"EVAL-lib": 1}),
+        ]
+        for flags, src, want, traces in arg_cases:
+            cases.append((src, want, traces, flags))
+        for case in cases:
+            src, want, traces = case[:3]
+            extra_flags = case[3] if len(case) > 3 else None
             root = os.path.join(d, "root.jsonnet")
             with open(root, "w") as f:
                 f.write(src)
-            for argv in (["-J", os.path.join(d, "jlib"), root], ["-J", os.path.join(d, "jlib"), "-J", d, "-e", src]):
+            for argv in ((["-J", os.path.join(d, "jlib"), root], ["-J", os.path.join(d, "jlib"), "-J", d, "-e", src]) if extra_flags is None
+                         else (extra_flags + [root], extra_flags + ["-e", src])):
                 agg.evaluations += 1
                 try:
                     p = subprocess.run([common.CLI] + argv, capture_output=True, timeout=60, env=dict(os.environ, NO_COLOR="1"), cwd=d)
@@ -508,7 +538,7 @@ def run(tier, seed):
             "local, identity function, one-element array, one-field object when self/super/$-free, dead local, dead "
             "array element, dead hidden field, dead defaulted parameter) leave value, error message and trace "
             "sequence unchanged; (3) a table of builtins/constructs whose unused elements are failing expressions and "
-            "whose used elements are traced exactly once. imports through the CLI with real files: a file imported through several spellings / in a function called repeatedly / in a comprehension is evaluated once (trace count), and an import the result does not depend on (failing, missing or syntactically broken file) is never evaluated. distinct_nontrivial = programs with at least one dead "
+            "whose used elements are traced exactly once. imports through the CLI with real files: a file imported through several spellings / in a function called repeatedly / in a comprehension is evaluated once (trace count), and an import the result does not depend on (failing, missing or syntactically broken file) is never evaluated; code given with --tla-code / --ext-code (text or file) is evaluated only as far as the result needs it, and once. distinct_nontrivial = programs with at least one dead "
             "binding whose trace multiset matched + distinct rewritten programs compared + table cases.")
     return common.finish(PROP, tier, seed, total, rule, t0,
                          assumptions=["the reference interpreter's force log defines which thunk instances call-by-need evaluates",
